@@ -41,6 +41,11 @@ type Table struct {
 	Rows      [][]octosql.Value
 	// Source, when set, replaces Rows (e.g. a scripted source or a node that fails half way).
 	Source func(cols []int) execution.Node
+	// Push is the table's predicate push-down policy (optimizer rule PushDownFilterPredicatesToDatasource): "" rejects every
+	// predicate, "all" accepts every predicate, "alt" accepts every other new predicate (so filters are split between the
+	// datasource and a remaining Filter node).  Accepted predicates are evaluated by the datasource on the full row, as a
+	// real datasource (e.g. a plugin) does.
+	Push string
 }
 
 type memDB struct{ tables map[string]*Table }
@@ -79,20 +84,56 @@ func (m *memImpl) Materialize(ctx context.Context, env physical.Environment, sch
 	if m.t.Source != nil {
 		return m.t.Source(cols), nil
 	}
-	return &memNode{rows: m.t.Rows, cols: cols}, nil
+	full := physical.NewSchema(m.t.Fields, m.t.TimeField)
+	preds := make([]execution.Expression, len(pushedDownPredicates))
+	for i := range pushedDownPredicates {
+		e, err := pushedDownPredicates[i].Materialize(ctx, env.WithRecordSchema(full))
+		if err != nil {
+			return nil, fmt.Errorf("mem table: pushed-down predicate does not materialise on the table's own schema: %w", err)
+		}
+		preds[i] = e
+	}
+	return &memNode{rows: m.t.Rows, cols: cols, preds: preds}, nil
 }
 
 func (m *memImpl) PushDownPredicates(newPredicates, pushedDownPredicates []physical.Expression) (rejected, pushedDown []physical.Expression, changed bool) {
+	switch m.t.Push {
+	case "all":
+		return []physical.Expression{}, append(append([]physical.Expression{}, pushedDownPredicates...), newPredicates...), len(newPredicates) > 0
+	case "alt":
+		rejected = []physical.Expression{}
+		pushedDown = append([]physical.Expression{}, pushedDownPredicates...)
+		for i, p := range newPredicates {
+			if i%2 == 0 {
+				pushedDown = append(pushedDown, p)
+				changed = true
+			} else {
+				rejected = append(rejected, p)
+			}
+		}
+		return rejected, pushedDown, changed
+	}
 	return newPredicates, []physical.Expression{}, false
 }
 
 type memNode struct {
-	rows [][]octosql.Value
-	cols []int
+	rows  [][]octosql.Value
+	cols  []int
+	preds []execution.Expression
 }
 
 func (n *memNode) Run(ctx execution.ExecutionContext, produce execution.ProduceFn, metaSend execution.MetaSendFn) error {
+rows:
 	for _, r := range n.rows {
+		for _, p := range n.preds {
+			v, err := p.Evaluate(ctx.WithRecord(execution.NewRecord(r, false, execution.Record{}.EventTime)))
+			if err != nil {
+				return err
+			}
+			if v.TypeID != octosql.TypeIDBoolean || !v.Boolean {
+				continue rows
+			}
+		}
 		vs := make([]octosql.Value, len(n.cols))
 		for i, c := range n.cols {
 			vs[i] = r[c]
